@@ -2,3 +2,5 @@ import XProofs.Properties.C02
 #print axioms Properties.C02.C02_once
 #print axioms Properties.C02.C02_exact
 #print axioms Properties.C02.C02_order
+#print axioms Properties.C02.C02_findTaskids
+#print axioms Properties.C02.C02_runs_in_order
